@@ -13,6 +13,7 @@ import (
 	"path/filepath"
 	"sort"
 	"strings"
+	"sync"
 	"testing"
 	"testing/synctest"
 	"time"
@@ -43,7 +44,7 @@ type COp struct {
 	WaitMs    int64  `json:"wait,omitempty"`
 	Val       int64  `json:"val,omitempty"`
 	Burst     int    `json:"burst,omitempty"` // setmax: this many further limit changes right behind the first
-	DiskFault string `json:"disk,omitempty"` // file backend: "squat" (a directory sits on the entry's name), "fsize" (write fails after DiskAt bytes, RLIMIT_FSIZE), "vanish" (file unlinked before get)
+	DiskFault string `json:"disk,omitempty"`  // file backend: "squat" (a directory sits on the entry's name), "fsize" (write fails after DiskAt bytes, RLIMIT_FSIZE), "vanish" (file unlinked before get)
 	DiskAt    int    `json:"disk_at,omitempty"`
 }
 
@@ -405,15 +406,38 @@ func runCachePlan(t *testing.T, planAny any, ctl Ctl) *Result {
 		s.Unexempt()
 
 		actorNames := []string{}
+		var opMu sync.Mutex
+		opStart := map[int][3]int{} // actor -> {op index, releases at its start, 1 while it runs}
 		for a := range p.Actors {
 			a := a
 			name := fmt.Sprintf("actor:%d", a)
 			actorNames = append(actorNames, name)
 			s.Spawn(name, func() {
 				for i, op := range p.Actors[a] {
+					opMu.Lock()
+					opStart[a] = [3]int{i, s.TaskReleases(name), 1}
+					opMu.Unlock()
 					w.exec(a, i, op)
+					opMu.Lock()
+					opStart[a] = [3]int{}
+					opMu.Unlock()
 				}
 			})
+		}
+		// C14 "every cache operation completes": an operation that has been given the processor a
+		// thousand times and more without returning is not waiting for anybody, it does not end (the
+		// longest operation of the unchanged code takes a few dozen turns)
+		checkEndless := func() {
+			opMu.Lock()
+			defer opMu.Unlock()
+			for a, st := range opStart {
+				name := fmt.Sprintf("actor:%d", a)
+				if st[2] == 1 && !s.TaskDone(name) {
+					if turns := s.TaskReleases(name) - st[1]; turns > 1000 && p.Actors[a][st[0]].Kind != "wait" {
+						res.violate("C14.b", "operation-does-not-end: "+p.Actors[a][st[0]].Kind, "%s of actor %d has had the processor %d times since it began and has not returned [%s]", p.Actors[a][st[0]].Kind, a, turns, opSig(p))
+					}
+				}
+			}
 		}
 		actorsDone := func() bool {
 			for _, n := range actorNames {
@@ -487,6 +511,7 @@ func runCachePlan(t *testing.T, planAny any, ctl Ctl) *Result {
 		for _, pm := range s.Panics {
 			res.violate("C16.b", "panic", "task panicked: %s", pm)
 		}
+		checkEndless()
 		// teardown
 		cancel()
 		if !w.destr {
@@ -494,7 +519,7 @@ func runCachePlan(t *testing.T, planAny any, ctl Ctl) *Result {
 		}
 		// every parked task is terminated at its yield point: a task released in pass-through mode
 		// while it waits for a lock that was leaked would block on the real mutex for ever
-		s.Drain(func(n string) bool { return true })
+		s.DrainKillOnPark() // also what arrives at a yield point later: an operation that loops (sleeping in between) never parks at this moment
 		for i := 0; i < 20; i++ {
 			synctest.Wait()
 			n := cache.VerifDrainIntervalChan(w.c)
@@ -503,6 +528,14 @@ func runCachePlan(t *testing.T, planAny any, ctl Ctl) *Result {
 			}
 			if i > 0 {
 				res.Probes["notifier_left_blocked_after_stop"] += n
+			}
+		}
+		if end == "steps" {
+			// something may be looping with sleeps in between: let the clock run so that it comes to
+			// a yield point, where it is terminated (the bubble cannot end with a sleeper in it)
+			for i := 0; i < 50; i++ {
+				time.Sleep(10 * time.Millisecond)
+				synctest.Wait()
 			}
 		}
 	})
@@ -1081,7 +1114,7 @@ var cacheEnumOps = []COp{
 	{Kind: "get", Key: 0},
 	{Kind: "upd", Key: 0, TTLMs: 1},
 	{Kind: "put", Key: 1, Size: 400, TTLMs: 5}, // expires before the next tick
-	{Kind: "wait", WaitMs: 60},                  // lets a janitor cycle run
+	{Kind: "wait", WaitMs: 60},                 // lets a janitor cycle run
 }
 
 // genCacheEnumPlan enumerates every operation sequence up to the tier's depth, by run index.
